@@ -1,5 +1,6 @@
 import STProofs.CostDecomp
 import STProofs.SampleTraj
+import STProofs.SamplesAny
 /-!
 # C08 — cost decomposition and sample fidelity
 
